@@ -19,3 +19,21 @@ Definition spec_run (ops : list op) : adv := fold_left spec_step ops [].
 
 (* route r is advertised by at least one source *)
 Definition advertised (a : adv) (r : rid) : Prop := exists s, In (s, r) a.
+
+(* ---- the same at the level of the RIS clients: which client currently has which route from its
+   upstream (an ended stream forgets everything the client had learned) *)
+Definition client_step (a : adv) (e : event) : adv :=
+  match e with
+  | Adv c r => if adv_mem c r a then a else (c, r) :: a
+  | Wd c r => filter (fun p => negb (N.eqb (fst p) c && N.eqb (snd p) r)) a
+  | StreamEnd c => filter (fun p => negb (N.eqb (fst p) c)) a
+  end.
+Definition client_run (evs : list event) : adv := fold_left client_step evs [].
+
+(* an operation that can concern route r: everything except Add/Remove of another route *)
+Definition about (r : rid) (o : op) : bool :=
+  match o with
+  | Add _ r' => N.eqb r' r
+  | Remove _ r' => N.eqb r' r
+  | Drop _ => true
+  end.
